@@ -208,7 +208,7 @@ Section SpecTerm.
           * rewrite no_resolver_s. exact I.
           * rewrite no_resolver_s. exact I.
           * exfalso. apply NC. reflexivity.
-          * exact I.
+          * rewrite no_resolver_s. exact I.
           * rewrite (NO r0 eq_refl). exact I.
       - exfalso. apply (Hspl e). exists rt. split; assumption.
     Qed.
